@@ -9,6 +9,9 @@ From Coq Require Import List NArith String Bool Sorted Permutation.
 From Gen Require Import Tables.
 From Model Require Import Base Names Flt Matches Cd.
 From Proofs Require Import NamesFacts RangesFacts OrderIndep CdFacts.
+From Model Require Import Md.
+From Proofs Require Import MdFacts.
+From Gen Require Import Tables.
 Import ListNotations.
 
 (* sorting a duplicate-free collection under a strict total order does not depend on the order in
@@ -47,3 +50,18 @@ Theorem C03_coherence_function_of_visited :
       option_map (fun v => sort_desc FO (filter_alt FO (filter (keep FO thr) v))) (visited FO C t include).
 Proof. exact coherence_ratio_as_cutoff. Qed.
 Print Assumptions C03_coherence_function_of_visited.
+
+(* utils::is_suspiciously_successive_range (the site the mess detector consults for every pair of adjacent
+   characters) builds two hash sets of the words of the range names and asks whether ANY common word is not a
+   secondary keyword.  Model/Md.suspicious corresponds with it on all 280 x 280 argument pairs on every run;
+   its keyword clause is a set-level statement and the whole function is symmetric: no enumeration order of
+   either set, and no argument order, can influence the answer. *)
+Theorem C03_suspicious_keyword_clause_is_set_level :
+  forall a b, kw_clause a b = true <->
+    exists w, In w (split_ws a) /\ In w (split_ws b) /\ ~ In w SECONDARY_KEYWORDS.
+Proof. exact kw_clause_spec. Qed.
+Print Assumptions C03_suspicious_keyword_clause_is_set_level.
+
+Theorem C03_suspicious_range_symmetric : forall ra rb, suspicious ra rb = suspicious rb ra.
+Proof. exact suspicious_sym. Qed.
+Print Assumptions C03_suspicious_range_symmetric.
